@@ -446,9 +446,15 @@ def _strip_details_cut_chain(ctx, f, g, rd, q, msg):
             if e.id == msg and all(d.kind == 'param' for d in rd.at(node, msg)):
                 break
             defs = rd.at(node, e.id)
-            need(len(defs) == 1 and isinstance(defs[0].value, ast.AST), 'C03.R6: cut chain passes through a variable with several definitions')
+            need(len(defs) == 1, 'C03.R6: cut chain passes through a variable with several definitions')
             node = defs[0].node
-            e = defs[0].value
+            v = defs[0].value
+            if isinstance(v, tuple) and v[0] == 'unpack' and isinstance(v[1], ast.AST) and isinstance(v[2], int):
+                # `head, _, _ = X.partition(c)` is X.partition(c)[0]
+                e = ast.Subscript(value=v[1], slice=ast.Constant(value=v[2]), ctx=ast.Load())
+                continue
+            need(isinstance(v, ast.AST), 'C03.R6: cut chain passes through a definition that is not a plain assignment')
+            e = v
             continue
         cut = _cut_of(e)
         need(cut is not None, 'C03.R6: unrecognised step `%s` in the class-name extraction' % ctx.src(e))
